@@ -8,6 +8,7 @@ harness checks that the real flat AST is the dump of the tweaked tree, `c15.spec
 -/
 import Paroxy.Proofs.NodeFeature
 import Paroxy.Proofs.FlatEntries
+import Paroxy.Proofs.NodeStarts
 import Paroxy.Props.C15
 namespace Paroxy.Props.C01
 open Paroxy.Flat
@@ -112,16 +113,38 @@ theorem C01_binding_own_line (ty : Str) (n : Nat) (addr : List Nat) :
     nodeBinding? (ty, [posText n addr]) = some (cs!"node:" ++ ty, ⟨n, n, posPath addr⟩) := by
   simp [nodeBinding?, posToSpan?, parsePos_posText]
 
-/-- … and for a two-POS match the start is still the node's own line (the end is the subject of C02). -/
-theorem C01_binding_start (ty p2 : Str) (n : Nat) (addr : List Nat) (b : Str × SpanP)
-    (h : nodeBinding? (ty, [posText n addr, p2]) = some b) : b.1 = cs!"node:" ++ ty ∧ b.2.start = n := by
+/-- … and for a two-POS match — the second capture `p2` being a position on line `n2` — the span goes from
+the smaller to the larger of the two lines (fix 44b0b15: `pos_to_span` sorts them): `start = min n n2`. -/
+theorem C01_binding_start_min (ty p2 x2 : Str) (n n2 : Nat) (addr : List Nat) (b : Str × SpanP)
+    (hp2 : parsePos? p2 = some (n2, x2))
+    (h : nodeBinding? (ty, [posText n addr, p2]) = some b) :
+    b.1 = cs!"node:" ++ ty ∧ b.2.start = min n n2 ∧ b.2.stop = max n n2 ∧ b.2.path = posPath addr := by
   simp only [nodeBinding?, posToSpan?, List.head?_cons, List.getLast?_cons_cons, List.getLast?_singleton,
-    parsePos_posText] at h
-  cases hp : parsePos? p2 with
-  | none => simp [hp] at h
-  | some q =>
-    simp only [hp, Option.map_some, Option.some.injEq] at h
-    rw [← h]; exact ⟨rfl, rfl⟩
+    parsePos_posText, hp2, Option.map_some, Option.some.injEq] at h
+  rw [← h]; exact ⟨rfl, rfl, rfl, rfl⟩
+
+/-- Corollary: the occurrence **starts on the node's own line** as soon as that line is not after the line of
+the second capture. For a positioned node the second capture is its last positioned strict descendant in
+dump order, so this hypothesis is what `lastDescMono` gives (`C02_node_span`: `GoodSpan`); it holds on every
+real tree seen (a positioned node's line is the first line of its text, decorators apart, and the body comes
+last). Without it the start would be the line of that descendant. -/
+theorem C01_binding_start (ty p2 x2 : Str) (n n2 : Nat) (addr : List Nat) (b : Str × SpanP)
+    (hp2 : parsePos? p2 = some (n2, x2)) (hle : n ≤ n2)
+    (h : nodeBinding? (ty, [posText n addr, p2]) = some b) : b.1 = cs!"node:" ++ ty ∧ b.2.start = n := by
+  obtain ⟨h1, h2, _, _⟩ := C01_binding_start_min ty p2 x2 n n2 addr b hp2 h
+  exact ⟨h1, by rw [h2]; exact Nat.min_eq_left hle⟩
+
+/-- **C01 (where the occurrences start, on the whole tree).** `nodeStartsSpec` is what the sorted span gives:
+for every positioned node, the smaller of its own line and the line of its last positioned strict descendant in
+dump order. Under `lastDescMono` (Bool-valued, evaluated on every real tree: holds on all of them) it is the
+list of the positioned nodes **with their own lines** — the clause "it starts on that node's own line". The
+harness compares the starts of the reported `node:` labels with `nodeStartsSpec` on every tree, whether the
+hypothesis holds or not. -/
+theorem C01_node_starts (t : Val) (h : lastDescMono [] [] t = true) :
+    nodeStartsSpec [] [] t = positionedNodes t := nodeStartsSpec_eq [] [] t h
+
+example : lastDescMono [] [] sample = true ∧
+    nodeStartsSpec [] [] sample = [(cs!"Assign", 1), (cs!"Name", 1), (cs!"Num", 1)] := by decide
 
 /-- "Same text" clause of the property (tagging parses exactly the source that Paroxython stores and
 shows): in this model it is a mere congruence — `tagNodes` reads `program.source` only — hence an
